@@ -460,11 +460,10 @@ impl Parser {
                 Some(Lexem::Or) => {
                     let expr = self.parse_and()?;
                     right = match right {
-                        Some(right) => Some(Expr::logical_op(
-                            right,
-                            LogicalOp::Or,
-                            expr.clone().unwrap(),
-                        )),
+                        Some(right) => match expr {
+                            Some(expr) => Some(Expr::logical_op(right, LogicalOp::Or, expr)),
+                            None => return Err(String::from("Error parsing condition after OR")),
+                        },
                         None => expr,
                     };
                 }
@@ -472,9 +471,10 @@ impl Parser {
                     self.drop_lexem();
 
                     return match right {
-                        Some(right) => {
-                            Ok(Some(Expr::logical_op(left.unwrap(), LogicalOp::Or, right)))
-                        }
+                        Some(right) => match left {
+                            Some(left) => Ok(Some(Expr::logical_op(left, LogicalOp::Or, right))),
+                            None => Err(String::from("Error parsing condition before OR")),
+                        },
                         None => Ok(left),
                     };
                 }
@@ -492,7 +492,10 @@ impl Parser {
                 Some(Lexem::And) => {
                     let expr = self.parse_cond()?;
                     right = match right {
-                        Some(right) => Some(Expr::logical_op(right, LogicalOp::And, expr.unwrap())),
+                        Some(right) => match expr {
+                            Some(expr) => Some(Expr::logical_op(right, LogicalOp::And, expr)),
+                            None => return Err(String::from("Error parsing condition after AND")),
+                        },
                         None => expr,
                     };
                 }
@@ -500,9 +503,10 @@ impl Parser {
                     self.drop_lexem();
 
                     return match right {
-                        Some(right) => {
-                            Ok(Some(Expr::logical_op(left.unwrap(), LogicalOp::And, right)))
-                        }
+                        Some(right) => match left {
+                            Some(left) => Ok(Some(Expr::logical_op(left, LogicalOp::And, right))),
+                            None => Err(String::from("Error parsing condition before AND")),
+                        },
                         None => Ok(left),
                     };
                 }
@@ -548,6 +552,10 @@ impl Parser {
 
                 let right_between = self.parse_add_sub()?;
 
+                if left.is_none() || left_between.is_none() || right_between.is_none() {
+                    return Err(String::from("Error parsing BETWEEN operator"));
+                }
+
                 let left_expr = Expr::op(
                     left.clone().unwrap(),
                     match not {
@@ -576,8 +584,11 @@ impl Parser {
             }
             Some(Lexem::Operator(s)) => {
                 let right = self.parse_add_sub()?;
-                let op = Op::from_with_not(s, not);
-                Ok(Some(Expr::op(left.unwrap(), op.unwrap(), right.unwrap())))
+                match (left, Op::from_with_not(s.clone(), not), right) {
+                    (Some(left), Some(op), Some(right)) => Ok(Some(Expr::op(left, op, right))),
+                    (_, None, _) => return Err(String::from("Unknown operator ") + &s),
+                    _ => return Err(String::from("Error parsing condition, operand expected")),
+                }
             }
             _ => {
                 self.drop_lexem();
@@ -641,9 +652,10 @@ impl Parser {
                         }
 
                         left = match left {
-                            Some(left) => {
-                                Some(Expr::arithmetic_op(left, new_op.unwrap(), expr.unwrap()))
-                            }
+                            Some(left) => match expr {
+                                Some(expr) => Some(Expr::arithmetic_op(left, new_op.unwrap(), expr)),
+                                None => return Err(String::from("Error parsing arithmetic expression")),
+                            },
                             None => expr,
                         };
                     }
@@ -679,9 +691,10 @@ impl Parser {
                         }
 
                         left = match left {
-                            Some(left) => {
-                                Some(Expr::arithmetic_op(left, new_op.unwrap(), expr.unwrap()))
-                            }
+                            Some(left) => match expr {
+                                Some(expr) => Some(Expr::arithmetic_op(left, new_op.unwrap(), expr)),
+                                None => return Err(String::from("Error parsing arithmetic expression")),
+                            },
                             None => expr,
                         };
                     }
@@ -836,8 +849,10 @@ impl Parser {
                             Some(Lexem::Comma) => {}
                             Some(Lexem::RawString(_)) => {
                                 self.drop_lexem();
-                                let group_field = self.parse_expr().unwrap().unwrap();
-                                group_by_fields.push(group_field);
+                                match self.parse_expr()? {
+                                    Some(group_field) => group_by_fields.push(group_field),
+                                    None => return Err(String::from("Error parsing GROUP BY expression")),
+                                }
                             }
                             _ => {
                                 self.drop_lexem();
@@ -868,7 +883,13 @@ impl Parser {
                     match self.next_lexem() {
                         Some(Lexem::Comma) => {}
                         Some(Lexem::RawString(ref ordering_field)) => {
+                            let positional = ordering_field.chars().all(|c| c.is_ascii_digit());
                             let actual_field = match ordering_field.parse::<usize>() {
+                                Err(_) if positional => {
+                                    return Err(String::from(
+                                        "Error parsing ORDER BY, no such column position",
+                                    ))
+                                }
                                 Ok(idx) => match idx.checked_sub(1).and_then(|i| fields.get(i)) {
                                     Some(field) => field.clone(),
                                     None => {
